@@ -6,7 +6,7 @@ from noiseref import prims
 from noiseref.patterns import CIPHERS, DHS, HASHES, all_variants, make_name, overhead, parse_name_simple
 
 from .. import core, sessions
-from ..script import Case
+from ..script import Case, gen_bytes
 from ..shadow import Shadow
 
 # write variants: (payload length, buffer length) as functions of (max payload, overhead)
@@ -60,7 +60,7 @@ class CheckC14(core.Check):
     level = "exploration"
     cfg = "A"
     rule = (
-        "case = fresh honest prefix up to message i, then ONE boundary call (write with a payload/buffer pair, or read of a "
+        "case = fresh honest prefix up to message i (a third of the sessions with PSKs installed late through set_psk, or with a PSK the pattern never uses), then ONE boundary call (write with a payload/buffer pair, or read of a "
         "genuine message with a buffer/truncation/extension variant), judged by the model's length arithmetic; distinct key "
         "= (pattern+psk variant, DH, message index or transport mode, variant); non-trivial = the boundary call was reached "
         "and judged (must_ok with length compared, or must_err)"
@@ -99,12 +99,23 @@ class CheckC14(core.Check):
         parsed = parse_name_simple(name)
         keys = sessions.Keys(parsed, seed)
         c = Case("f-%s-%d-%s%d-%d" % (name, seed, kind, i, k), desc)
-        sessions.add_pair(c, parsed, keys, rng=("script:%d" % seed, "script:%d" % (seed + 1)), rec=("r", "r"))
+        # PSKs may be installed late (set_psk right before the message that needs them), and a pattern without psk modifier
+        # may be given a PSK it never uses: neither changes a single length
+        late = ((), ())
+        if parsed.psks and seed % 3 == 0:
+            late = (tuple(q for q in parsed.psks if (seed >> (3 + q)) & 1), tuple(q for q in parsed.psks if (seed >> (7 + q)) & 1))
+        elif not parsed.psks and seed % 3 == 0:
+            keys.psks = {seed % 4: gen_bytes("stray%d" % seed, 32)}
+        sessions.add_pair(c, parsed, keys, rng=("script:%d" % seed, "script:%d" % (seed + 1)), rec=("r", "r"), late=late)
         publen = prims.DH_PUBLEN[parsed.dh]
         ovs = overhead(parsed.pattern, parsed.psks, publen)
         ids = ("A", "B")
         if kind in ("hw", "hr"):
-            sessions.add_handshake(c, parsed, ["gen:3:p%d" % j for j in range(parsed.nmsgs)], upto=i, flags=("q",))
+            sessions.add_handshake(c, parsed, ["gen:3:p%d" % j for j in range(parsed.nmsgs)], upto=i, flags=("q",), late=late, keys=keys)
+            for j in (0, 1):
+                for q in sorted(late[j]):
+                    if (q == 0 and i == 0) or (q > 0 and q - 1 == i):
+                        c.op("set_psk", ids[j], loc=q, key=keys.psks[q])
             w, r = (ids[0], ids[1]) if i % 2 == 0 else (ids[1], ids[0])
             ov = ovs[i]
             mx = 65535 - ov
@@ -124,7 +135,7 @@ class CheckC14(core.Check):
                 c.meta["target"] = c.op("hs_read", r, msg=msg, buf=buf)
                 c.info = {"variant": vname}
         else:
-            sessions.add_handshake(c, parsed, ["-"] * parsed.nmsgs, flags=("q",))
+            sessions.add_handshake(c, parsed, ["-"] * parsed.nmsgs, flags=("q",), late=late, keys=keys)
             stateless = kind == "s"
             sessions.add_convert(c, stateless=stateless)
             d = 0 if parsed.oneway else i
